@@ -446,4 +446,64 @@ theorem service_wait_exact (cfg : Cfg) (mops : List (Nat × Op)) (i : Nat) :
   exact ⟨fun c w hq hw => deadline_is_arrival_plus_wait cfg _ c w hq hw,
     fun h c => never_rejected_without_max_wait cfg _ h c⟩
 
+/-! ## waits with a sub-millisecond part (`unit=us`)
+
+`Cfg.maxWait` is the configured wait on the timer's grid: `timerTicks us` clock ticks (ms) for a wait of `us`
+microseconds (`TR.Bulkhead.cfgOf`). The theorems above are stated in ticks; the following restate "exactly `max_wait`
+after it arrived" for the configured wait itself. -/
+
+/-- the timer rounds UP: the tick at which the wait is over is never before the configured wait has elapsed … -/
+theorem timerTicks_not_early (us : Nat) : us ≤ 1000 * timerTicks us := by unfold timerTicks; omega
+/-- … and less than one millisecond after it -/
+theorem timerTicks_less_than_a_tick_late (us : Nat) : 1000 * timerTicks us < us + 1000 := by unfold timerTicks; omega
+/-- whole-millisecond waits are exact -/
+theorem timerTicks_whole (m : Nat) : timerTicks (1000 * m) = m := by unfold timerTicks; omega
+/-- only a wait of exactly zero is "reject when full": 500 µs, 1 µs are waits -/
+theorem timerTicks_zero_iff (us : Nat) : timerTicks us = 0 ↔ us = 0 := by unfold timerTicks; omega
+
+/-- **Never early, for every configured wait.** With `max_wait_duration = us` microseconds, every `err:timeout` of a
+reachable log was answered by a poll made at an instant `now` (ms) with `arrival + us µs ≤ now`: the configured wait
+— not the wait truncated to whole milliseconds — has fully elapsed. -/
+theorem rejection_never_before_configured_wait (cfg : Cfg) (us : Nat) (ops : List Op) (c : Nat)
+    (hcfg : cfg.maxWait = some (timerTicks us)) (h : Ev.result c .timeout ∈ (run cfg ops).log) :
+    ∃ pre post t, ops = pre ++ Op.poll c :: post ∧ lookup (run cfg (pre ++ [.poll c])).firstPoll c = some t ∧
+      1000 * t + us ≤ 1000 * (run cfg pre).now := by
+  obtain ⟨pre, post, w, t, heq, hw, ht, hle⟩ := rejection_instant cfg ops c h
+  rw [hcfg] at hw
+  cases hw
+  refine ⟨pre, post, t, heq, ht, ?_⟩
+  have := timerTicks_not_early us
+  omega
+
+/-- **The tail of the wait counts.** A caller that is waiting without a permit and is polled while its configured wait
+of `us` microseconds has not yet elapsed (`now < arrival + us µs` — in particular at the last millisecond boundary
+before the deadline of a wait such as 1.5 ms) keeps waiting: the state does not change, so a slot released then is
+still handed to it (`release` gives the permit to the head of the queue). -/
+theorem waits_through_configured_wait (cfg : Cfg) (us : Nat) (ops : List Op) (c t : Nat)
+    (hq : c ∈ (run cfg ops).queue) (ha : c ∉ (run cfg ops).assigned) (hcfg : cfg.maxWait = some (timerTicks us))
+    (ht : lookup (run cfg ops).firstPoll c = some t) (hnow : 1000 * (run cfg ops).now < 1000 * t + us) :
+    stepS cfg (run cfg ops) (.poll c) = run cfg ops := by
+  apply waits_until_deadline cfg ops c (timerTicks us) t hq ha hcfg ht
+  have := timerTicks_not_early us
+  omega
+
+/-- … and it is rejected by the first poll at or after the first timer tick `≥ arrival + us µs`. -/
+theorem rejected_at_first_tick_after_configured_wait (cfg : Cfg) (us : Nat) (ops : List Op) (c t : Nat)
+    (hq : c ∈ (run cfg ops).queue) (ha : c ∉ (run cfg ops).assigned) (hcfg : cfg.maxWait = some (timerTicks us))
+    (ht : lookup (run cfg ops).firstPoll c = some t) (hnow : t + timerTicks us ≤ (run cfg ops).now) :
+    (stepS cfg (run cfg ops) (.poll c)).log = (run cfg ops).log ++ [Ev.result c .timeout] :=
+  (rejected_at_deadline cfg ops c (timerTicks us) t hq ha hcfg ht hnow).1
+
+/-- Non-vacuity (`max = 1`, `max_wait = 1.5 ms`): caller 2 arrives at t = 0 while the slot is taken; at t = 1 ms it is
+polled and still queued; the holder is cancelled at t = 1 ms and caller 2 gets the slot at its next poll. Without the
+release it is rejected at t = 2 ms, not at 1 ms. A wait of 500 µs queues (it is not fail-fast). -/
+example :
+    let cfg : Cfg := { max := 1, maxWait := some (timerTicks 1500) }
+    let ops : List Op := [.arrive 1 ⟨1000, .never⟩, .poll 1, .arrive 2 ⟨0, .ok⟩, .poll 2, .adv 1, .poll 2]
+    (run cfg ops).queue = [2] ∧ (run cfg ops).log = [.innerCall 1 0] ∧
+    (run cfg (ops ++ [.drop 1, .poll 2])).log.getLast? = some (.result 2 (.ok 1)) ∧
+    (run cfg (ops ++ [.adv 1, .poll 2])).log.getLast? = some (.result 2 .timeout) ∧
+    (run { max := 1, maxWait := some (timerTicks 500) }
+      [.arrive 1 ⟨1000, .never⟩, .poll 1, .arrive 2 ⟨0, .ok⟩, .poll 2]).queue = [2] := by decide
+
 end TR.Props.C07
